@@ -86,6 +86,7 @@ def main():
     ap.add_argument('--seeded', action='store_true')
     ap.add_argument('-j', type=int, default=4)
     ap.add_argument('--json')
+    ap.add_argument('--merge', action='store_true', help='merge the results into an existing --json report')
     args = ap.parse_args()
     from mutants.specs import MUTANTS
     muts = list(MUTANTS)
@@ -125,6 +126,12 @@ def main():
                 report.append({'prop': prop, 'mutant': name, 'verdict': verdict, 'expect': expect, 'tests': tests})
             sys.stdout.flush()
     if args.json:
+        if args.merge and os.path.exists(args.json):
+            # update an existing report in place: entries of the (mutant, property) pairs just run replace the old ones
+            with open(args.json) as f:
+                old = json.load(f)
+            keys = set((r['mutant'], r['prop']) for r in report)
+            report = [r for r in old if (r['mutant'], r['prop']) not in keys] + report
         with open(args.json, 'w') as f:
             json.dump(report, f, indent=1)
     print('%d mutants, %d unexpected' % (len(muts), bad))
